@@ -51,9 +51,11 @@ SkipFalseOnly == { [mode |-> "false", names |-> {}] }
 NoPrev == { <<>> }
 \* earlier files: one that registered fn through pk.mod, one that registered pk.sub.mod's fn through a from-import
 Prevs == { <<>>, << Imp("plain", <<"pk","mod">>, ""), Bnd(<<"pk","mod","fn">>, "x", "9") >>,
+           \* an earlier file that referred to the class through an alias of its own
+           << Imp("as", <<"pk","mod">>, "m"), BndRef(<<"m","fn">>, "y", <<"m","Cls">>) >>,
            << Imp("from", <<"pk","sub","mod">>, ""), Bnd(<<"mod","fn">>, "y", "8"), Imp("plain", <<"pk","mod">>, ""), Bnd(<<"pk","mod","Cls">>, "x", "7") >> }
 \* the history family: few templates, every earlier file
-TplHist == { Imp("plain", <<"pk","mod">>, ""), Imp("plain", <<"pk","sub","mod">>, ""), Imp("from", <<"pk","sub","mod">>, ""),
+TplHist == { Bnd(<<"pk","mod","Cls","meth">>, "x", "2"), Imp("plain", <<"pk","mod">>, ""), Imp("plain", <<"pk","sub","mod">>, ""), Imp("from", <<"pk","sub","mod">>, ""),
   Bnd(<<"pk","mod","fn">>, "x", "1"), Bnd(<<"mod","fn">>, "x", "3"), Bnd(<<"pk","mod","Cls">>, "x", "1"), Bnd(<<"pk","sub","mod","fn">>, "x", "5"),
   BndRef(<<"pk","mod","fn">>, "y", <<"pk","mod","Cls">>), BndRef(<<"mod","fn">>, "y", <<"pk","mod","fn">>) }
 HistSkips == { [mode |-> "false", names |-> {}], [mode |-> "true", names |-> {}],
